@@ -11,6 +11,37 @@ import loops
 import recursion
 
 
+def check_push_positive(chk, rule, prog, cache):
+    """pushes: a definite container is given a stack frame only with a positive outstanding count (an empty one is complete
+    at once and occupies no nesting level); the counts themselves are C02.counter"""
+    # pushes: definite containers with a positive count, tags with 1 (the counts themselves are C02.counter)
+    load_ = prog.fn("cbor_load")
+    g_ = prog.global_for(load_, "cbor_load.callbacks")
+    for el in g_["init_val"].elems:
+        fn_ = getattr(el, "name", None)
+        if not fn_ or fn_ not in prog.funcs:
+            continue
+        for k, pa in enumerate(cache.get(fn_)):
+            for e in pa.calls("_cbor_stack_push"):
+                cnt = e.args[2]
+                ctor = [x for x in pa.events if x.kind == "call" and x.res == e.args[1]]
+                cname = ctor[0].callee if ctor else "?"
+                if "definite_" in cname and "indefinite" not in cname:
+                    base = cnt
+                    if isinstance(cnt, tuple) and cnt[0] == "op" and cnt[1] in ("mul", "shl"):
+                        base = cnt[3] if not P.is_const(cnt[3]) else cnt[4]
+                    ok = pa.st.known_positive(base)
+                    chk.ob(rule, "%s: a definite frame is pushed only with a positive count" % fn_, ok, e.ins.loc(), fn=fn_,
+                           key="pushpos:%s" % fn_, detail="" if ok else "count %s not known to be positive" % DR.fmt_term(cnt))
+
+
+def _pointee_is_field(e, off):
+    """cbor_decref(&local) where the local holds the value read from a record's item field"""
+    x = e.extra.get("pointee") if isinstance(e.extra, dict) else None
+    t = x[0] if x else None
+    return isinstance(t, tuple) and t[0] == "ld" and t[2] == off
+
+
 def run(ctx, chk):
     prog = ctx.prog()
     eff = ctx.effects(prog)
@@ -63,7 +94,25 @@ def run(ctx, chk):
             for e in pa.events:
                 if e.kind == "call" and e.callee in ("memcpy", "memmove", "memset", "strcpy", "strncpy", "strcat"):
                     nm += 1
-                    if e.callee != "memcpy":
+                    if e.callee == "memset":
+                        # filling a fresh block (or a local object) with a constant: the fill must fit the block
+                        dst, n_ = e.args[0], e.args[2]
+                        b_, o_ = ptr_key(dst)
+                        ok, why = False, "destination %s is neither a fresh block nor a local object" % DR.fmt_term(dst)
+                        if isinstance(b_, tuple) and b_[0] == "call" and is_const(n_):
+                            al = [x for x in pa.events if x.kind == "call" and x.res == b_ and x.ckind == "alloc"]
+                            if al and is_const(al[0].args[0]):
+                                ok = o_ + n_[1] <= al[0].args[0][1] and pa.st.known_nonnull(b_, upto=e.nfacts)
+                                why = "fill of %d byte(s) at offset %d of a fresh block of %d byte(s), non-NULL known: %s" % (
+                                    n_[1], o_, al[0].args[0][1], pa.st.known_nonnull(b_, upto=e.nfacts))
+                        elif isinstance(b_, tuple) and b_[0] == "alloca" and is_const(n_):
+                            cap_ = prog.fn(b_[1]).insts[b_[2]].d.get("alloc_size")
+                            ok = cap_ is not None and o_ + n_[1] <= cap_
+                            why = "fill of %d byte(s) at offset %d of a local object of %s byte(s)" % (n_[1], o_, cap_)
+                        chk.ob("C01.memcpy", "%s path %d: memset" % (f.name, k), ok, e.ins.loc(), fn=f.name, key="%s:memset:%s:%d" % (f.name, e.fn.name, e.ins.id),
+                               detail="" if ok else why, path=pa.block_lines() if not ok else None)
+                        continue
+                    if e.callee not in ("memcpy", "memmove"):
                         chk.ob("C01.memcpy", "%s: %s" % (f.name, e.callee), False, e.ins.loc(), fn=f.name, key="%s:%s:%s" % (f.name, e.fn.name, e.callee),
                                detail="bulk write primitive outside the two recognised shapes")
                         continue
@@ -150,7 +199,7 @@ def run(ctx, chk):
             drefs = [e for e in tail if e.kind == "call" and e.callee == "cbor_decref"]
             # each drain iteration: decref(&top->item) then pop
             ok = bool(szf) and szf[-1][1] is False and len(pops) == len(drefs) and \
-                all(ptr_key(d.args[0])[1] == item_off for d in drefs)
+                all(ptr_key(d.args[0])[1] == item_off or _pointee_is_field(d, item_off) for d in drefs)
             # number of iterations taken = number of True facts after the error label; with the bound of the unrolling
             ndr += 1
             chk.ob("C01.drain", "path %d: NULL after %d decoder call(s): %d frame(s) released, loop left on the empty-stack edge"
@@ -247,25 +296,7 @@ def run(ctx, chk):
     av = prog.fn("_cbor_map_add_value")
     okv = all(q.ret == ("c", 1) for q in cache.get(av.name))
     chk.ob("C01.frame-invariants", "_cbor_map_add_value returns true on every path", okv, "%s:%d" % (av.file, av.line), fn=av.name, key="addvalue")
-    # pushes: definite containers with a positive count, tags with 1 (the counts themselves are C02.counter)
-    load_ = prog.fn("cbor_load")
-    g_ = prog.global_for(load_, "cbor_load.callbacks")
-    for el in g_["init_val"].elems:
-        fn_ = getattr(el, "name", None)
-        if not fn_ or fn_ not in prog.funcs:
-            continue
-        for k, pa in enumerate(cache.get(fn_)):
-            for e in pa.calls("_cbor_stack_push"):
-                cnt = e.args[2]
-                ctor = [x for x in pa.events if x.kind == "call" and x.res == e.args[1]]
-                cname = ctor[0].callee if ctor else "?"
-                if "definite_" in cname and "indefinite" not in cname:
-                    base = cnt
-                    if isinstance(cnt, tuple) and cnt[0] == "op" and cnt[1] in ("mul", "shl"):
-                        base = cnt[3] if not P.is_const(cnt[3]) else cnt[4]
-                    ok = pa.st.known_positive(base)
-                    chk.ob("C01.frame-invariants", "%s: a definite frame is pushed only with a positive count" % fn_, ok, e.ins.loc(), fn=fn_,
-                           key="pushpos:%s" % fn_, detail="" if ok else "count %s not known to be positive" % DR.fmt_term(cnt))
+    check_push_positive(chk, "C01.frame-invariants", prog, cache)
     uc = prog.fn("_cbor_unicode_codepoint_count")
     lp = loops.classify_loops(prog, uc)
     okc = len(lp) == 1 and lp[0]["ok"] and lp[0]["kind"].startswith("counted(up")
@@ -337,4 +368,13 @@ def run(ctx, chk):
     chk.rule("C01.slot-reads", "every loop that reads the slot table of a container (copy, describe, size, serialize, release) is bounded "
              "by the element count, never by the capacity: slots beyond the count hold whatever the allocator returned")
     _r1.check_slot_reads_below_count(chk, "C01.slot-reads", prog, eff)
+    chk.rule("C01.signed-shift", "every left shift whose (promoted) left operand has a signed type keeps the operand's set bits below the sign "
+             "bit: operand width + distance <= 31 for int (decided on the clang AST, where the promotion is visible; no undefined behaviour while decoding: the byte loaders and the half decoder shift promoted bytes)")
+    import ast_rules as _ar
+    _ar.check_signed_shifts(chk, "C01.signed-shift", prog)
+    chk.rule("C01.block-bounds", "every load, store and block copy at a constant offset into a block that the same path obtained from the "
+             "allocator with a constant request lies inside the request (memory safety: the allocator is only asked once, the block is as big as the request)")
+    import rules as _rbb
+    import ownership as _Obb
+    _rbb.check_fresh_block_bounds(chk, "C01.block-bounds", prog, eff, _Obb.PathCache(prog, eff))
     chk.exhaustive = True
